@@ -1412,6 +1412,28 @@ func (b *Body) freshNode(v ssa.Value, depth int) (bool, string) {
 	// constructor shape: returns an Alloc; stores of params into its fields
 	pi, ok := constructorParam(f)
 	if !ok {
+		// a helper whose every result is a fresh node in its own right
+		if depth < 3 && f.Pkg == b.Lib && len(f.Blocks) > 0 {
+			rets := returnsOf(f)
+			all := len(rets) > 0
+			why := ""
+			for _, r := range rets {
+				if len(r.Results) == 0 {
+					all = false
+					break
+				}
+				ok2, w := b.freshNode(r.Results[0], depth+1)
+				if !ok2 {
+					all = false
+					why = w
+					break
+				}
+				why = w
+			}
+			if all {
+				return true, fname(f) + " returns " + why
+			}
+		}
 		return false, fname(f) + " is not a node constructor (new struct holding its parameter)"
 	}
 	arg := call.Call.Args[pi]
